@@ -37,7 +37,9 @@ TStep == /\ l <= NEvents
                 cs == Verdict(e)
             IN /\ l' = l + 1
                /\ bad' = IF cs = <<>> THEN bad ELSE Append(bad, BadRec(l, e, cs))
-               /\ notes' = IF Len(notes) < 20 THEN notes \o Note(l, e) ELSE notes
+               /\ notes' = LET nn == Note(l, e)
+                            IN IF nn # <<>> /\ ~\E k \in DOMAIN notes : notes[k].note = nn[1].note /\ notes[k].op = nn[1].op
+                               THEN notes \o nn ELSE notes
 
 TSpec == TInit /\ [][TStep]_<<l, bad, notes>>
 
